@@ -1,6 +1,6 @@
 ---- MODULE SubjectTraceMC ----
 EXTENDS SubjectTrace
-AnyScript == UNION {[1..n -> [k : {"unsub", "mute", "unmute", "inval", "sub", "notify"}, t : 0..40]] : n \in 0..2}
+AnyScript == Seq([k : {"unsub", "mute", "unmute", "inval", "sub", "notify"}, t : 0..40])   \* only ever tested for membership
 NoOrder == <<>>
 AllOps == {"Subscribe", "SubscribeMuted", "UnsubF", "UnsubH", "UnsubS", "Mute", "Unmute", "Invalidate", "Swap", "Notify"}
 ====
